@@ -17,7 +17,7 @@ Driver commands of the magnetic identification / standardization stage models (`
      perms p1 , p2 , … ; uni u ; ulinear 9 ; ushift 3 ; symprec s ; magsymprec m ; epsilon e [; rot 9] [; impltlinear 9]` answers
   `ok ; primlat … ; primn … ; primpos … ; primnum … ; primmom … ; ptlinear … ; ushift … ; stdlat … ; stdn … ; stdpos … ; stdnum … ;
       stdmom … ; tlinear … ; tshift … ; sitemap … ; ctype c ; branch b ; fragile r,… ; rotchk orthErr detQ lowTri metricDev ;
-      hyp compat small invariant ; mhyp magCompat momInvariant stdMomInvariant`
+      hyp compat small invariant ; mhyp magCompat momInvariant stdMomInvariant ; ahyp hypAnti antiInvariant`
   or `err <name> ; fragile …`, `PANIC <site> ; fragile …`, `MISMATCH <what>`.
 
 Fragility (DESIGN §2.3): every comparison of a computed real quantity against a threshold in this stage is a
@@ -116,7 +116,8 @@ def s6mOut (collinear : Bool) (r : S6m.Result) : String :=
   s!" ; sitemap {natsToString f.siteMapping} ; ctype {r.ctype} ; branch {f.branch.toString} ; fragile {DriverS6.fragOut r.fragile}" ++
   s!" ; rotchk {DriverS6.approx f.orthErr} {DriverS6.approx f.detQ} {DriverS6.approx f.lowTri} {DriverS6.approx f.metricDev}" ++
   s!" ; hyp {b01 f.hypCompat} {b01 f.hypSmall} {b01 f.exactInvariant}" ++
-  s!" ; mhyp {b01 r.hypMom} {b01 r.momInvariant} {b01 r.stdMomInvariant}"
+  s!" ; mhyp {b01 r.hypMom} {b01 r.momInvariant} {b01 r.stdMomInvariant}" ++
+  s!" ; ahyp {b01 r.hypAnti} {b01 r.antiInvariant}"
 
 def cmdS6m (ts : List String) : String :=
   match parseS6m? ts with
